@@ -154,7 +154,9 @@ def mc(ctx, st, q, invariants, properties, defects):
         # against bounded prefixes by the GEN-all table instead)
         kw = dict(Tab='TabU6', Ent=6, Cap=3, PerSender=2, MaxLast=2, MaxH=2, MaxNow=2, MaxBlk=2, LevelFee='TRUE', TierAt=2)
         if defects == 'AllDefects':
-            defects = 'TwoDefects'
+            # C22: the action property RejectKeeps re-evaluates every submission on every transition (more than 4 CPU-hours
+            # on the configuration above); all six defect kinds are checked on the quick universe instead
+            kw.update(MaxNow=1, MaxBlk=1)
     ctx.write_cfg(st, 'mc.cfg', cfg_text(view='view', invariants=invariants, properties=properties, Defects=defects,
                                          MaxRm=1, EmitOn='FALSE', **kw))
     r = ctx.tlc_mc('Mempool_MC', 'mc.cfg', workers=4, timeout=18000, stage=st, coverage=not q)
